@@ -25,9 +25,16 @@ component (`!cmp.Equal(existing, proposed)`) and the server-side one always rewr
 on reference.Claim{APIVersion, Kind, Name, Namespace}: ALL of name, namespace, group,
 version and kind must agree (a uid key is dropped by GetClaimReference and never compared).
 
+Managed fields (extension round): an XR carries `mf`, the manager names of its
+metadata.managedFields in order. `PatchingManagedFieldsUpgrader.Upgrade`'s decision (which managers
+exist -> no patch / remove the last before-first-apply entry / clear all managers) is the computed
+function `upgradeDecision` of the `mf` of the XR AS READ (possibly stale), wired only together with
+the server-side syncer (`Cfg.ssa`, offered/reconciler.go: `wiringSSA`); whether the server can apply
+the JSON patch is the computed function `applyUpDec` of the STORED `mf` (a `replace` of an absent
+key / a `remove` past the end is Invalid). Neither is an oracle any more.
+
 Not modelled (chosen by an oracle that the theorems quantify over, and that the
-driver takes from the real run): the managed-fields state that decides whether
-`Upgrade` issues its JSON patch and whether the server accepts it; the random
+driver takes from the real run): the random
 name suffixes (name oracle `cands`); which version the lagging cache serves
 (`pick`). Field-level sync of spec/status/labels is C07's subject. The pause
 annotation and connection-secret propagation are outside (never enabled). The claim's
@@ -98,6 +105,8 @@ structure XR where
   deleting : Bool
   status : Bool          -- has a status
   gen : Nat              -- status.observed: written by the XR controller (environment) only
+  /-- metadata.managedFields: the manager name of every entry, in order (all `Upgrade` looks at) -/
+  mf : List String
   deriving DecidableEq, Repr
 
 /-- ghost events -/
@@ -144,6 +153,55 @@ inductive Err where
   | notFound | conflict | invalid | exists | other
   deriving DecidableEq, Repr
 
+/-- the two JSON patches of PatchingManagedFieldsUpgrader.Upgrade -/
+inductive UpDec where
+  /-- `{"op":"replace","path":"/metadata/managedFields","value":[{}]}`: clear all field managers -/
+  | clear
+  /-- `{"op":"remove","path":"/metadata/managedFields/i"}`: drop the before-first-apply entry -/
+  | removeAt (i : Nat)
+  deriving DecidableEq, Repr
+
+/-- claim.FieldOwnerXR (tied to the source by `field_owner_tied`) -/
+def ssaManager : String := "apiextensions.crossplane.io/claim"
+/-- the manager the API server records, at the first apply to an object without managers, for everything
+that was there before -/
+def bfaManager : String := "before-first-apply"
+/-- the default (client-side) field manager of the Crossplane client -/
+def csaManager : String := "crossplane"
+
+/-- the loop of `Upgrade` over `obj.GetManagedFields()`: `i` = index of the head, `fs` = foundSSA,
+`ib` = idxBFA (foundBFA = `ib.isSome`); a later before-first-apply entry overwrites an earlier index -/
+def upgradeScan (ssa : String) : List String → Nat → Bool → Option Nat → Bool × Option Nat
+  | [], _, fs, ib => (fs, ib)
+  | m :: ms, i, fs, ib => upgradeScan ssa ms (i + 1) (fs || m == ssa) (if m == bfaManager then some i else ib)
+
+/-- the `switch` of `Upgrade`: `foundSSA && !foundBFA` -> nothing to do; `foundSSA && foundBFA` -> remove
+entry idxBFA; default -> clear all managers -/
+def upgradeDecision (ssa : String) (mf : List String) : Option UpDec :=
+  match upgradeScan ssa mf 0 false none with
+  | (true, none) => none
+  | (true, some i) => some (.removeAt i)
+  | (false, _) => some .clear
+
+/-- what the API server makes of the patch on an object with managers `mf` (`none` = it cannot apply it:
+422 Invalid): `replace` needs the key to be there — an object without managers serialises without
+`managedFields` —, `remove` needs the index to exist -/
+def applyUpDec : UpDec → List String → Option (List String)
+  | .clear, [] => none
+  | .clear, _ :: _ => some []
+  | .removeAt i, mf => if i < mf.length then some (mf.eraseIdx i) else none
+
+/-- a write of manager `m` records it unless an entry of that manager exists -/
+def touchMgr (m : String) (mf : List String) : List String := if mf.contains m then mf else mf ++ [m]
+
+/-- the forced apply of the server-side syncer on an existing object: the applying manager is recorded; if
+the object had no managers at all (they were cleared), everything that was there is attributed to
+before-first-apply -/
+def applyMf (mf : List String) : List String :=
+  match mf with
+  | [] => [ssaManager, bfaManager]
+  | _ => touchMgr ssaManager mf
+
 inductive Req where
   /-- cached read of the claim: `none` = the stored version, `some i` = the i-th newest version ever stored -/
   | getClaim (pick : Option Nat)
@@ -155,8 +213,8 @@ inductive Req where
   | updClaim (c : Claim)
   /-- client.Status().Update(claim) -/
   | updClaimStatus (rv : Nat)
-  /-- the managed-fields JSON patch (carries the XR's resourceVersion); `valid` = the server can apply it -/
-  | upgradeXR (n : Name) (rv : Nat) (valid : Bool)
+  /-- one of the two managed-fields JSON patches of `Upgrade` (both carry the XR's resourceVersion) -/
+  | upgradeXR (n : Name) (rv : Nat) (d : UpDec)
   | deleteXR (n : Name) (fg : Bool)
   /-- client.Create(XR) of the client-side syncer: carries `spec.claimRef = cref` and the claim labels; `rvSet` = the
   object still carries the resourceVersion of an earlier read (the server rejects such a create) -/
@@ -205,16 +263,16 @@ def ackOf (c : Claim) : List Ev :=
   | none => []
 
 /-- the XR a create / apply-create stores: claimRef and claim labels from the request -/
-def newXR (cref : CRef) : XR := ⟨0, some cref, false, some (cref.name, cref.ns), false, false, false, 0⟩
+def newXR (cref : CRef) (mgr : String) : XR := ⟨0, some cref, false, some (cref.name, cref.ns), false, false, false, 0, [mgr]⟩
 
 /-- the merge patch of the client-side syncer (APIPatchingApplicator: the whole desired object sent as a
 JSON merge patch) sets the four fields of spec.claimRef; a key the desired object lacks (uid) is not
 removed by a merge patch -/
-def bindXR (cref : CRef) (x : XR) : XR := { x with cref := some cref, lbl := some (cref.name, cref.ns) }
+def bindXR (cref : CRef) (x : XR) : XR := { x with cref := some cref, lbl := some (cref.name, cref.ns), mf := touchMgr csaManager x.mf }
 
 /-- the forced apply of the server-side syncer sets the four fields it owns; a uid key set by
 somebody else stays -/
-def applyBindXR (cref : CRef) (x : XR) : XR := { x with cref := some cref, lbl := some (cref.name, cref.ns) }
+def applyBindXR (cref : CRef) (x : XR) : XR := { x with cref := some cref, lbl := some (cref.name, cref.ns), mf := applyMf x.mf }
 
 /-- the store after Delete(XR `n`), `x` = its stored state, `x1` = `x` with the foregroundDeletion
 finalizer if requested: an object with finalizers gets a deletionTimestamp (nothing at all changes,
@@ -254,14 +312,14 @@ def exec (s : St) : Req → St × Resp
       else
         let r := pushClaim s cur
         (r.1, .claim r.2)
-  | .upgradeXR n rv valid =>
+  | .upgradeXR n rv d =>
     match s.xrs n with
     | none => (s, .err .notFound)
     | some x =>
-      if !valid then (s, .err .invalid)
+      if (applyUpDec d x.mf).isNone then (s, .err .invalid)
       else if rv ≠ x.rv then (s, .err .conflict)
       else
-        let r := putXR s n x
+        let r := putXR s n { x with mf := (applyUpDec d x.mf).getD x.mf }
         (emit r.1 (.xrWriteG n x.cref), .xr r.2)
   | .deleteXR n fg =>
     match s.xrs n with
@@ -275,7 +333,7 @@ def exec (s : St) : Req → St × Resp
     | none =>
       if rvSet then (s, .err .other)
       else
-        let r := putXR s n (newXR cref)
+        let r := putXR s n (newXR cref csaManager)
         (emit r.1 (.create n), .xr r.2)
   | .patchXR n rv cref =>
     match s.xrs n with
@@ -288,7 +346,7 @@ def exec (s : St) : Req → St × Resp
   | .applyXR n cref =>
     match s.xrs n with
     | none =>
-      let r := putXR s n (newXR cref)
+      let r := putXR s n (newXR cref ssaManager)
       (emit r.1 (.create n), .xr r.2)
     | some x =>
       let r := putXR s n (applyBindXR cref x)
@@ -344,8 +402,6 @@ structure Cfg where
   xpick : Nat → Option (List (Option XR) → Option (Option XR))
   /-- name oracle: the names the generator draws, in order -/
   cands : List Name
-  /-- managed-fields oracle: `none` = Upgrade issues no patch, `some valid` = it issues one -/
-  up : Option Bool
 
 /-- `return reconcile.Result{Requeue: …}, errors.Wrap(r.client.Status().Update(ctx, cm), errUpdateClaimStatus)` -/
 def statusThen (cm : Claim) (r : Res) : P :=
@@ -492,11 +548,19 @@ def bindPath (cfg : Cfg) (cm : Claim) (xr : Option (Name × XR)) : P :=
 def restOf (cfg : Cfg) (cm : Claim) (xr : Option (Name × XR)) : P :=
   if cm.deleting then deletePath cm xr else bindPath cfg cm xr
 
+/-- `r.managedFields.Upgrade(ctx, xr, FieldOwnerXR)` as wired by offered/reconciler.go: the
+PatchingManagedFieldsUpgrader together with the server-side syncer, the NopManagedFieldsUpgrader (claim.NewReconciler's
+default) otherwise; `!meta.WasCreated(obj)` -> nothing -/
+def upgradeOf (cfg : Cfg) (xr : Option (Name × XR)) : Option UpDec :=
+  match xr with
+  | some (_, x) => if cfg.ssa then upgradeDecision ssaManager x.mf else none
+  | none => none
+
 /-- everything after the unbound check: managed-fields Upgrade, then delete or bind -/
 def afterCheck (cfg : Cfg) (cm : Claim) (xr : Option (Name × XR)) : P :=
-  match xr, cfg.up with
-  | some (n, x), some valid =>
-    .call (.upgradeXR n x.rv valid) fun
+  match xr, upgradeOf cfg xr with
+  | some (n, x), some d =>
+    .call (.upgradeXR n x.rv d) fun
       | .xr x' => restOf cfg cm (some (n, x'))
       | .err .notFound => restOf cfg cm (some (n, x))
       | .err e => failWith cm e
@@ -567,9 +631,58 @@ def skelSsaSync : List String := ["names.GenerateName", "client.Update", "client
 def skelCsaSync : List String :=
   ["names.GenerateName", "client.Update", "client.Apply", "client.Status.Update", "client.Update"]
 
-def skelUpgrade : List String := ["client.Patch", "client.Patch"]
+def skelUpgrade : List String :=
+  ["client.Patch",     -- case foundSSA && foundBFA: upgradeXR _ _ (.removeAt idxBFA)
+   "client.Patch"]     -- default: upgradeXR _ _ .clear
 
 def skelGenerateName : List String := ["namer.GenerateName", "reader.Get"]
+
+/-- crossplane-runtime `APIPatchingApplicator.Apply` (the module source the harness is compiled from),
+mirrored by `csaApply` -/
+def skelApply : List String :=
+  ["client.Create",    -- not modelled: only for an object with generateName and no name (the syncer names the XR first)
+   "client.Get",       -- csaApply: getXR n (xpick 1)
+   "client.Create",    -- NotFound: createXR n _ _
+   "client.Patch"]     -- after the ApplyOptions (`csaNoop` = AllowUpdateIf refusing): patchXR n _ _
+
+/-- crossplane-runtime `APIFinalizer.AddFinalizer`: `bindPath`'s updClaim { cm with fin := true } unless `cm.fin` -/
+def skelAddFinalizer : List String := ["client.Update"]
+
+/-- crossplane-runtime `APIFinalizer.RemoveFinalizer`: `finalizeClaim`'s updClaim { cm with fin := false } if `cm.fin` -/
+def skelRemoveFinalizer : List String := ["client.Update"]
+
+/-- offered/reconciler.go under features.EnableBetaClaimSSA: `Cfg.ssa = true` selects `syncSSA` in `syncWith`
+AND `upgradeDecision` in `upgradeOf` -/
+def wiringSSA : List String :=
+  ["WithCompositeSyncer:NewServerSideCompositeSyncer", "WithManagedFieldsUpgrader:NewPatchingManagedFieldsUpgrader"]
+
+/-- claim.NewReconciler's defaults: `Cfg.ssa = false` selects `syncCSA` and no upgrade patch -/
+def wiringDefault : List String :=
+  ["CompositeSyncer:NewClientSideCompositeSyncer", "managedFields:NopManagedFieldsUpgrader", "composite:defaultCRComposite"]
+
+/-! #### the declared skeletons of the syncers as functions of the model's programs -/
+
+/-- the client call a request is -/
+def reqVerb : Req → String
+  | .getClaim _ | .getXR _ _ => "client.Get"
+  | .updClaim _ => "client.Update"
+  | .updClaimStatus _ => "client.Status.Update"
+  | .upgradeXR _ _ _ | .patchXR _ _ _ | .applyXR _ _ => "client.Patch"
+  | .deleteXR _ _ => "client.Delete"
+  | .createXR _ _ _ => "client.Create"
+
+/-- the requests a program issues when every call is answered by `reply` (at most `fuel` of them) -/
+def pathReqs (reply : Req → Resp) : Nat → P → List Req
+  | 0, _ => []
+  | _, .ret _ => []
+  | fuel + 1, .call r k => r :: pathReqs reply fuel (k (reply r))
+
+/-- every call succeeds; an XR read finds the XR iff `found`; the XR applied has a status -/
+def okReply (cm : Claim) (x : XR) (found : Bool) : Req → Resp
+  | .getClaim _ | .updClaim _ | .updClaimStatus _ => .claim cm
+  | .getXR _ _ => if found then .xr x else .err .notFound
+  | .deleteXR _ _ => .ok
+  | _ => .xr { x with status := true }
 
 /-! ### environment -/
 
@@ -663,7 +776,7 @@ def applyEnv (s : St) : EnvAct → St
   | .xrCreate n r uid =>
     match s.xrs n with
     | some _ => s
-    | none => (putXR s n ⟨0, r, uid && r.isSome, lblOf r, false, false, false, 0⟩).1
+    | none => (putXR s n ⟨0, r, uid && r.isSome, lblOf r, false, false, false, 0, [csaManager]⟩).1
   | .xrBind n r uid =>
     match s.xrs n with
     | some x =>
